@@ -104,6 +104,10 @@ func OracleC18(tr *Trace) Verdict {
 							okRev[w.Ver.Rev] = true // exact tie with the time-out: either outcome
 						}
 					}
+					if latest != nil && tr.StalledAt(si.Inst, PointHeartbeatAns, s.T) {
+						// the heartbeat goroutine is being held between receiving the answer and recording it
+						latest = nil
+					}
 					if latest != nil {
 						okRev[latest.Ver.Rev] = true
 						if !okRev[si.Revision] {
